@@ -353,7 +353,7 @@ func c15Render(src string, b map[string]any) (o Outcome) {
 		var err liquid.SourceError
 		t, err = c15.eng.ParseString(src)
 		if err != nil {
-			panic("harness: " + src + ": " + err.Error())
+			panic(explore.BaselineFailure{Msg: "harness: " + src + ": " + err.Error()})
 		}
 		c15.tpl[src] = t
 	}
